@@ -454,24 +454,24 @@ theorem c04_pnpm_catalog_complete (content : Text) (tree : Node) (path : List No
 
 /-! ### the premises are satisfiable (hand-built trees of `steps: {uses: a/b@v1}` and of a one-entry catalog) -/
 
-private def ni (k : String) (sb eb : Nat) (f : Option String) : NodeInfo := ⟨k, sb, eb, 0, sb, 0, eb, f, true, false⟩
-private def exContent : Text := "steps: {uses: a/b@v1}".toList
-private def exUses : Node :=
+def ni (k : String) (sb eb : Nat) (f : Option String) : NodeInfo := ⟨k, sb, eb, 0, sb, 0, eb, f, true, false⟩
+def exContent : Text := "steps: {uses: a/b@v1}".toList
+def exUses : Node :=
   .mk (ni "flow_pair" 8 20 none) [.mk (ni "flow_node" 8 12 (some "key")) [], .mk (ni "flow_node" 14 20 (some "value")) []]
-private def exVal : Node := .mk (ni "flow_node" 7 21 (some "value")) [.mk (ni "flow_mapping" 7 21 none) [exUses]]
-private def exTree : Node := .mk (ni "block_mapping_pair" 0 21 none) [.mk (ni "flow_node" 0 5 (some "key")) [], exVal]
+def exVal : Node := .mk (ni "flow_node" 7 21 (some "value")) [.mk (ni "flow_mapping" 7 21 none) [exUses]]
+def exTree : Node := .mk (ni "block_mapping_pair" 0 21 none) [.mk (ni "flow_node" 0 5 (some "key")) [], exVal]
 
 example : IsPath exTree [] exTree ∧ stepsValue exContent exTree = some exVal ∧ exUses ∈ subNodes exVal ∧
     (usesOf exContent exUses).map (fun p => (p.name, p.version)) = [("a/b".toList, "v1".toList)] ∧
     (workflow exContent exTree).map (fun p => (p.name, p.version)) = [("a/b".toList, "v1".toList)] :=
   ⟨.here, rfl, by simp only [exVal, subNodes, subNodesList, List.mem_cons, List.mem_append]; exact Or.inr (Or.inl (Or.inr (Or.inl (self_mem_subNodes _)))), rfl, rfl⟩
 
-private def pxContent : Text := "catalog:\n  a: 1.0.0".toList
-private def pxEntry : Node :=
+def pxContent : Text := "catalog:\n  a: 1.0.0".toList
+def pxEntry : Node :=
   .mk (ni "block_mapping_pair" 11 19 none) [.mk (ni "flow_node" 11 12 (some "key")) [], .mk (ni "flow_node" 14 19 (some "value")) []]
-private def pxVal : Node := .mk (ni "block_node" 11 19 (some "value")) [.mk (ni "block_mapping" 11 19 none) [pxEntry]]
-private def pxKey : Node := .mk (ni "flow_node" 0 7 (some "key")) []
-private def pxTree : Node := .mk (ni "block_mapping_pair" 0 19 none) [pxKey, pxVal]
+def pxVal : Node := .mk (ni "block_node" 11 19 (some "value")) [.mk (ni "block_mapping" 11 19 none) [pxEntry]]
+def pxKey : Node := .mk (ni "flow_node" 0 7 (some "key")) []
+def pxTree : Node := .mk (ni "block_mapping_pair" 0 19 none) [pxKey, pxVal]
 
 example : IsPath pxTree [] pxTree ∧ pxTree.kind = "block_mapping_pair" ∧ pxTree.childByField "key" = some pxKey ∧
     unquoteBoth (nodeText pxContent pxKey) = "catalog".toList ∧ pxTree.childByField "value" = some pxVal ∧
